@@ -197,7 +197,8 @@ Inductive op :=
 | OpApply (cfg : cconfig)
 | OpDeleted (name : N) (id : Z)
 | OpMeta (name : N) (id : Z) (st : sstatus) (term : Z) (leader : option N) (ens : list N)
-| OpRestart (cfg : cconfig).
+| OpRestart (cfg : cconfig)
+| OpCasLost (cfg : cconfig).
 
 Definition find_shard (name : N) (id : Z) (st : cstatus) : option smeta :=
   match ns_lookup name (st_ns st) with
@@ -214,6 +215,11 @@ Section Run.
      OpRestart: the coordinator is restarted (or fails over) and finds configuration [cfg]: NewCoordinator loads
        the STORED status and runs ApplyClusterChanges on it -- nothing is reset, in particular not
        ShardIdGenerator, also when the stored status has no namespace left.
+     OpCasLost: one attempt of ConfigChanged's compare-and-set loop that loses: LoadWithVersion, ApplyClusterChanges
+       (the supplier is consulted), and the Swap fails because a shard controller has stored the status in
+       between (the concurrent OpDeleted / OpMeta steps that follow in the history); nothing is stored, the
+       loop reads the status again and recomputes.  ConfigChanged with k lost attempts is
+       OpCasLost cfg; <concurrent steps>; ... ; OpApply cfg  (the OpApply is the attempt whose Swap succeeds).
      OpDeleted: shardController.deleteShard -> DeleteShardMetadata; the controller gets there only
        through DeleteShard(), which the coordinator invokes for shards it has marked Deleting, hence the guard.
      OpMeta: a shard controller writes back its own copy of the metadata after an election step: new
@@ -228,6 +234,7 @@ Section Run.
       | (None, sup1) => (st, sup1)
       | (Some (st1, _, _), sup1) => (st1, sup1)
       end
+    | OpCasLost cfg => (st, snd (apply_cluster_changes S supplier cfg st sup))
     | OpDeleted name id =>
       match find_shard name id st with
       | Some m => if is_deleting (m_st m) then (delete_shard_metadata name id st, sup) else (st, sup)
@@ -263,10 +270,11 @@ Inductive script_entry := SFail | SSimple | SExplicit (ens : list N).
 Record sup_state := mkSup {
   sup_servers : list N; sup_script : list script_entry; sup_log : list (N * N * Z * N) }.
 
-(* round robin from ServerIdx over the servers of the config being applied; fails without servers *)
+(* round robin from ServerIdx over the servers of the config being applied; fails without servers and
+   when there are fewer servers than replicas (like the real selector) *)
 Definition simple_ensemble (servers : list N) (sidx rf : N) : option (list N) :=
   let n := N.of_nat (length servers) mod U32 in
-  if N.eqb n 0 then None
+  if N.eqb n 0 || N.ltb n rf then None
   else Some (map (fun i => nth (N.to_nat (((sidx + i) mod U32) mod n)) servers 0) (N_seq rf)).
 
 Definition scripted (s : sup_state) (nc : nsconfig) (ed : cstatus) : option (list N) * sup_state :=
